@@ -28,3 +28,122 @@ package ot
 //@   ensures[C13] result1 == nil ==> callcount(Equal) == len(r.gadget)
 //@   ensures[C13] result1 == nil ==> (msg != nil && msg.UCheck != nil && len(msg.RCheck) == len(r.gadget) && result0 != nil)
 //@   assert_at[C13] Equal "if !checkLeft.Equal(checkRight) {": 0 <= i && i < len(result) && len(result) == len(r.gadget)
+
+// ---- setup layer (random OT / correlated OT setup), C05: a peer's setup message of any content is refused with an
+// error or processed without a panic (all indices are over fixed-size arrays).
+//@ pred rosok(s *RandomOTSender) := s.hash != nil && s.group != nil && s.b != nil && s._B != nil && s._bB != nil
+//@ pred rorok(s *RandomOTReceiever) := s.hash != nil && s.group != nil && s._B != nil
+//@ pred csrok(r *CorreOTSetupReceiver) := r != nil && r.hash != nil && r.hash.h != nil && r.group != nil && forall(i, integer, (0 <= i && i < 128) ==> rosok(&r.randomOTSenders[i]))
+//@ pred cssok(r *CorreOTSetupSender) := r != nil && r.hash != nil && r.hash.h != nil
+//@ pred cssok1(r *CorreOTSetupSender) := cssok(r) && forall(i, integer, (0 <= i && i < 128) ==> rorok(&r.randomOTReceivers[i]))
+
+// The receiver of the setup keeps the sender's public key only with a Schnorr proof of knowledge for exactly it.
+//@ func RandomOTSetupReceive
+//@   nopanic[C05]
+//@   requires hash != nil && hash.h != nil && msg != nil && msg.B != nil && (msg.BProof != nil ==> zksch.shapedProof(msg.BProof))
+//@   modifies hstate(hash), wlog(hash.h)
+//@   allocates
+//@   ensures result1 == nil ==> (result0 != nil && result0._B == msg.B)
+//@   ensures[C03] result1 == nil ==> lastresult(Verify)
+//@   assert_at[C03] Verify "if !msg.BProof.Verify(hash, msg.B, nil) {": arg0 == msg.BProof && arg1 == hash && arg2 == msg.B
+
+//@ func RandomOTSetupSend
+//@   nopanic[C05]
+//@   use gennz
+//@   requires hash != nil && hash.h != nil && group != nil
+//@   modifies hstate(hash), wlog(hash.h)
+//@   allocates
+//@   ensures result0 != nil && result1 != nil && result0.B != nil && result0.BProof != nil && result1.b != nil && result1._B != nil && result1._bB != nil
+
+//@ func NewRandomOTReceiver
+//@   nopanic[C05]
+//@   requires len(nonce) == 32 && v_result != nil && v_result._B != nil
+//@   modifies nothing
+//@   allocates
+//@   ensures out.hash != nil && out.group != nil && out._B == v_result._B
+
+//@ func NewRandomOTSender
+//@   nopanic[C05]
+//@   requires len(nonce) == 32 && v_result != nil && v_result.b != nil && v_result._B != nil && v_result._bB != nil
+//@   modifies nothing
+//@   allocates
+//@   ensures out.hash != nil && out.group != nil && out.b == v_result.b && out._B == v_result._B && out._bB == v_result._bB
+
+//@ func (*RandomOTReceiever).Round1
+//@   nopanic[C05]
+//@   requires r != nil && rorok(r)
+//@   modifies RandomOTReceiever.randChoice@r, wlog(r.hash)
+//@   allocates
+//@   ensures rorok(r)
+//@ func (*RandomOTReceiever).Round2
+//@   nopanic[C05]
+//@   requires r != nil && rorok(r) && msg != nil
+//@   modifies RandomOTReceiever.receivedChallenge@r, RandomOTReceiever.hh_randChoice@r, wlog(r.hash)
+//@   allocates
+//@   ensures rorok(r)
+//@ func (*RandomOTReceiever).Round3
+//@   nopanic[C05]
+//@   requires r != nil && rorok(r) && msg != nil
+//@   modifies wlog(r.hash)
+//@   allocates
+//@   ensures rorok(r)
+//@ func (*RandomOTSender).Round1
+//@   nopanic[C05]
+//@   requires r != nil && rosok(r) && msg != nil
+//@   modifies RandomOTSender.rand0@r, RandomOTSender.rand1@r, RandomOTSender.decommit0@r, RandomOTSender.decommit1@r, RandomOTSender.h_decommit0@r, wlog(r.hash)
+//@   allocates
+//@   ensures rosok(r)
+//@ func (*RandomOTSender).Round2
+//@   nopanic[C05]
+//@   requires r != nil && rosok(r) && msg != nil
+//@   modifies nothing
+//@   allocates
+//@   ensures rosok(r)
+
+//@ func (*CorreOTSetupSender).Round1
+//@   nopanic[C05]
+//@   requires cssok(r) && msg != nil && msg.Msg.B != nil && (msg.Msg.BProof != nil ==> zksch.shapedProof(msg.Msg.BProof))
+// (the message under construction is written by pool workers; the frame lists its field coarsely)
+//@   modifies RandomOTReceiveRound1Message.ABytes
+//@   modifies CorreOTSetupSender.*, RandomOTReceiever.*, heap:GV_wlog, heap:GV_hstate
+//@   allocates
+//@   loop 1: invariant cssok(r) && 0 <= i && r.setup != nil && r.setup._B != nil && randomOTNonces != nil
+//@   loop 1: invariant forall(k, integer, (0 <= k && k < i) ==> rorok(&r.randomOTReceivers[k]))
+//@   ensures cssok(r) && (result1 == nil ==> (cssok1(r) && result0 != nil))
+//@   ensures[C03] result1 == nil ==> called(RandomOTSetupReceive)
+//@ func (*CorreOTSetupSender).Round2
+//@   nopanic[C05]
+//@   requires cssok1(r) && msg != nil
+//@   modifies CorreOTSetupSender.*, RandomOTReceiever.*, heap:GV_wlog, heap:GV_hstate
+//@   allocates
+//@   loop 1: invariant cssok1(r) && outMsg != nil
+//@   ensures cssok1(r) && result != nil
+//@ func (*CorreOTSetupSender).Round3
+//@   nopanic[C05]
+//@   requires cssok1(r) && msg != nil
+//@   modifies CorreOTSetupSender.*, RandomOTReceiever.*, heap:GV_wlog, heap:GV_hstate
+//@   allocates
+//@   loop 1: invariant cssok1(r) && setup != nil
+//@   ensures cssok1(r) && (result1 == nil ==> result0 != nil)
+//@ func (*CorreOTSetupReceiver).Round1
+//@   nopanic[C05]
+//@   requires r != nil && r.hash != nil && r.hash.h != nil && r.group != nil
+//@   modifies CorreOTSetupReceiver.*, RandomOTSender.*, heap:GV_wlog, heap:GV_hstate
+//@   allocates
+//@   loop 1: invariant r != nil && r.hash != nil && r.hash.h != nil && r.group != nil && 0 <= i && msg != nil && msg.B != nil && r.setup != nil && r.setup.b != nil && r.setup._B != nil && r.setup._bB != nil && randomOTNonces != nil
+//@   loop 1: invariant forall(k, integer, (0 <= k && k < i) ==> rosok(&r.randomOTSenders[k]))
+//@   ensures csrok(r) && result != nil && result.Msg.B != nil
+//@ func (*CorreOTSetupReceiver).Round2
+//@   nopanic[C05]
+//@   requires csrok(r) && msg != nil
+//@   modifies RandomOTSendRound1Message.Challenge
+//@   modifies CorreOTSetupReceiver.*, RandomOTSender.*, heap:GV_wlog, heap:GV_hstate
+//@   allocates
+//@   ensures csrok(r) && (result1 == nil ==> result0 != nil)
+//@ func (*CorreOTSetupReceiver).Round3
+//@   nopanic[C05]
+//@   requires csrok(r) && msg != nil
+//@   modifies CorreOTSetupReceiver.*, RandomOTSender.*, heap:GV_wlog, heap:GV_hstate
+//@   allocates
+//@   loop 1: invariant csrok(r) && outMsg != nil && setup != nil
+//@   ensures csrok(r) && (result2 == nil ==> (result0 != nil && result1 != nil))
